@@ -279,7 +279,6 @@ def walk(node: Any) -> Any:
 def features(ast: Any) -> Set[str]:
     """Names of the constructs used in ``ast`` (for histograms and domain decisions)."""
     f = set()  # type: Set[str]
-    top = True
     for n in walk(ast):
         k = n[0]
         if k == "c":
@@ -322,8 +321,6 @@ def features(ast: Any) -> Set[str]:
                 f.add("quantified-astral")
         elif k == "u" and len(n[1]) > 1:
             f.add("union")
-        top = False
-    del top
     return f
 
 
